@@ -153,7 +153,8 @@ def main(argv=None):
         seed = 0
     sys.path.insert(0, VERIF)
     t0 = time.time()
-    ev_path = os.path.join(VERIF, "evidence", pid + ".json")
+    OUT = os.environ.get("VERIF_OUT", VERIF)  # mutant self-tests redirect evidence / replays to a scratch dir
+    ev_path = os.path.join(OUT, "evidence", pid + ".json")
     try:
         ctx, mod = run_property(pid, tier, seed)
         extra = {}
@@ -181,8 +182,8 @@ def main(argv=None):
             hit_known.append(o)
         else:
             viol.append(o)
-    os.makedirs(os.path.join(VERIF, "replays"), exist_ok=True)
-    os.makedirs(os.path.join(VERIF, "evidence"), exist_ok=True)
+    os.makedirs(os.path.join(OUT, "replays"), exist_ok=True)
+    os.makedirs(os.path.join(OUT, "evidence"), exist_ok=True)
 
     if replay:
         want = json.load(open(replay))
@@ -201,7 +202,7 @@ def main(argv=None):
     n = 0
     for o in viol:
         n += 1
-        rp = os.path.join(VERIF, "replays", "%s-%d.json" % (pid, n))
+        rp = os.path.join(OUT, "replays", "%s-%d.json" % (pid, n))
         d = o.as_dict()
         d["property"] = pid
         d["key"] = o.key
